@@ -722,9 +722,12 @@ class Interp:
             kind = "real" if "real" in (ka, kb) else "int"
             x, y = self._num(a, kind), self._num(b, kind)
             return {ast.Lt: x < y, ast.LtE: x <= y, ast.Gt: x > y, ast.GtE: x >= y}[type(op)]
-        if kb is None and (b is None or isinstance(b, (Env, Obj))):
-            if b is None:
-                self.raise_("TypeError", "comparison with None")
+        if a is None or b is None:
+            self.raise_("TypeError", "'<' not supported between instances of 'NoneType' and a number")
+        if isinstance(a, Env) or isinstance(b, Env):
+            # ordering against an opaque value: an unconstrained Boolean
+            self._fresh_n += 1
+            return z3.Bool(f"cmp!{self._fresh_n}")
         raise Unsupported(f"compare {type(op).__name__} on {ka}/{kb}")
 
     def neg(self, t):
@@ -1288,11 +1291,57 @@ class Interp:
         b = self.eval(n.right, fr)
         return self.binop(n.op, a, b)
 
+    def _boolop_symbolic(self, n, fr, first, is_and):
+        """`a and b and ...` over symbolic Booleans without forking: the remaining operands are evaluated speculatively
+        under the condition that makes them reachable; used only when that evaluation neither raises, forks nor has
+        effects, and every operand is Boolean-valued.  Returns an SV bool or None."""
+        vals = [first]
+        npc, ndec, nnew, ntr = len(self.pc), len(self.decisions), len(self.new_prefixes), len(self.trace)
+        self.solver.push()
+        ok = True
+        try:
+            for e in n.values[1:]:
+                t = self.truth(vals[-1])
+                c = t if is_and else self.neg(t)
+                if isinstance(c, bool):
+                    if not c:
+                        break
+                else:
+                    self.solver.add(c)
+                    self.pc.append(c)
+                v = self.eval(e, fr)
+                if not (isinstance(v, bool) or (isinstance(v, SV) and v.k == "bool")):
+                    ok = False
+                    break
+                vals.append(v)
+            if len(self.decisions) != ndec or len(self.new_prefixes) != nnew or len(self.trace) != ntr:
+                ok = False
+        except (PyRaise, Unsupported, PathEnd):
+            ok = False
+        finally:
+            self.solver.pop()
+            del self.pc[npc:]
+            del self.decisions[ndec:]
+            del self.new_prefixes[nnew:]
+            del self.trace[ntr:]
+        if not ok:
+            return None
+        parts = [z3.BoolVal(x) if isinstance(x, bool) else x.e for x in vals]
+        return SV(z3.And(parts) if is_and else z3.Or(parts), "bool")
+
     def e_BoolOp(self, n, fr):
         is_and = isinstance(n.op, ast.And)
+        first = self.eval(n.values[0], fr)
+        if isinstance(first, SV) and first.k == "bool" and not z3.is_true(z3.simplify(first.e)) and not z3.is_false(z3.simplify(first.e)):
+            r = self._boolop_symbolic(n, fr, first, is_and)
+            if r is not None:
+                return r
+        return self._boolop_forking(n, fr, first, is_and)
+
+    def _boolop_forking(self, n, fr, first, is_and):
         v = None
         for i, e in enumerate(n.values):
-            v = self.eval(e, fr)
+            v = first if i == 0 else self.eval(e, fr)
             if i == len(n.values) - 1:
                 return v
             t = self.branch(v, "boolop")
@@ -1477,7 +1526,30 @@ class Interp:
         i = z3.If(i < 0, z3.If(i + ln < 0, 0, i + ln), z3.If(i > ln, ln, i))
         return z3.simplify(i)
 
+    def _symseq_comp(self, n, fr, kind):
+        """comprehension over a symbolic-length sequence (single generator, no filter)"""
+        from .symcoll import SymMap
+        g = n.generators[0]
+        it = self.eval(g.iter, fr)
+        if not isinstance(it, SymSeq) or len(n.generators) != 1 or g.ifs:
+            return None
+
+        def at(expr):
+            def f(i):
+                f2 = Frame(fr.fi, fr.module, fr)
+                f2.self_cls = fr.self_cls
+                self.assign(g.target, it.elem(i), f2)
+                return self.eval(expr, f2)
+            return f
+        self._fresh_n += 1
+        if kind == "dict":
+            return SymMap(self, f"map!{self._fresh_n}", it.length, at(n.key), at(n.value))
+        return SymSeq(f"comp!{self._fresh_n}", it.length, at(n.elt))
+
     def e_ListComp(self, n, fr):
+        r = self._symseq_comp(n, fr, "list") if len(n.generators) == 1 else None
+        if r is not None:
+            return r
         out = []
         self._comp(n.generators, 0, fr, lambda f2: out.append(self.eval(n.elt, f2)))
         return out
@@ -1489,6 +1561,9 @@ class Interp:
         return self.e_ListComp(n, fr)
 
     def e_DictComp(self, n, fr):
+        r = self._symseq_comp(n, fr, "dict") if len(n.generators) == 1 else None
+        if r is not None:
+            return r
         out = {}
 
         def add(f2):
@@ -1781,7 +1856,58 @@ class Interp:
             raise PyRaise(ExcVal("Exception", (v,)))
         raise Unsupported(f"raise of {type(v).__name__}")
 
+    def _speculate_logs(self, cond, stmts, fr):
+        """evaluate the f-string arguments of a log-only block under `cond` without forking the path; returns False if
+        that evaluation raises or needs a fork (then the caller forks normally)"""
+        fstrs = [a for st in stmts if isinstance(st, ast.Expr) for a in st.value.args if isinstance(a, ast.JoinedStr)]
+        if not fstrs:
+            return True
+        if isinstance(cond, bool):
+            if not cond:
+                return True
+        npc, ndec, nnew, ntr = len(self.pc), len(self.decisions), len(self.new_prefixes), len(self.trace)
+        self.solver.push()
+        ok = True
+        try:
+            if not isinstance(cond, bool):
+                self.solver.add(cond)
+                self.pc.append(cond)
+            for f in fstrs:
+                self.eval(f, fr)
+            if len(self.decisions) != ndec or len(self.new_prefixes) != nnew or len(self.trace) != ntr:
+                ok = False
+        except (PyRaise, Unsupported, PathEnd):
+            ok = False
+        finally:
+            self.solver.pop()
+            del self.pc[npc:]
+            del self.decisions[ndec:]
+            del self.new_prefixes[nnew:]
+            del self.trace[ntr:]
+        return ok
+
+    def _log_only(self, stmts, fr, allow_fstr=False):
+        for st in stmts:
+            if isinstance(st, ast.Pass):
+                continue
+            if isinstance(st, ast.Expr) and isinstance(st.value, ast.Call) and isinstance(st.value.func, ast.Attribute) \
+                    and isinstance(st.value.func.value, ast.Name) and st.value.func.value.id in self.cfg.log_names \
+                    and not fr.lookup(st.value.func.value.id)[0]:
+                continue
+            return False
+        return True
+
     def s_If(self, s, fr):
+        if self._log_only(s.body, fr) and self._log_only(s.orelse, fr):
+            # both arms only log (pure-block elision, DESIGN A.2): evaluate the test (it may raise) and the log
+            # arguments of each arm under its condition, without forking the path
+            t = self.truth(self.eval(s.test, fr))
+            nt = self.neg(t)
+            if self._speculate_logs(t, s.body, fr) and self._speculate_logs(nt, s.orelse, fr):
+                return None
+            if self.branch(self._wrapb(t), "if"):
+                return self.exec_block(s.body, fr)
+            return self.exec_block(s.orelse, fr)
         if self.branch(self.eval(s.test, fr), "if"):
             return self.exec_block(s.body, fr)
         return self.exec_block(s.orelse, fr)
